@@ -45,7 +45,7 @@ Holds(r, n, e) == \E j \in 1..Len(ND(r, n).log) : ND(r, n).log[j] = e
 
 EmptyHist(r) ==
   [granted |-> {}, led |-> {}, committed |-> {}, maxTerm |-> [n \in NodeIds(r) |-> 1],
-   ldrLog |-> [t \in {} |-> <<>>], appliedCmd |-> [i \in {} |-> [op |-> "noop"]],
+   ldrLog |-> [t \in {} |-> <<>>], appliedCmd |-> [i \in {} |-> [op |-> "noop"]], appliedOk |-> [i \in {} |-> TRUE],
    lastApplied |-> [n \in NodeIds(r) |-> 0], inc |-> [n \in NodeIds(r) |-> 1],
    rresp |-> [n \in NodeIds(r) |-> {}], acked |-> {}, rejected |-> {}, responded |-> {},
    notifTerm |-> [n \in NodeIds(r) |-> 0], notif |-> {}, lostByReset |-> {}, hsLoss |-> FALSE, gapSeen |-> FALSE,
@@ -67,6 +67,7 @@ FoldApplied(hh, evs, j) ==
   IF j > Len(evs) THEN hh
   ELSE LET e == evs[j]
        IN FoldApplied([hh EXCEPT !.appliedCmd = IF e.idx \in DOMAIN @ THEN @ ELSE FnUpdate(@, e.idx, e.c),
+                                 !.appliedOk = IF e.idx \in DOMAIN @ THEN @ ELSE FnUpdate(@, e.idx, e.ok),
                                  !.lastApplied[e.n] = e.idx], evs, j + 1)
 
 RECURSIVE FoldLdr(_, _, _)
@@ -92,6 +93,11 @@ NewHist(hp, r) ==
         !.maxTerm = [n \in NodeIds(r) |-> IF ND(r, n).up THEN Max(@[n], ND(r, n).term) ELSE @[n]],
         !.ldrLog = FoldLdr(@, r, Leaders(r)),
         !.inc = [n \in NodeIds(r) |-> ND(r, n).inc],
+        \* a restarted node continues after what its state machine holds
+        !.lastApplied = [n \in NodeIds(r) |-> IF ND(r, n).inc # hp.inc[n]
+                                               THEN (IF Len(SelectSeq(r.ev, LAMBDA e : e.e = "Applied" /\ e.n = n)) > 0
+                                                     THEN 0 ELSE ND(r, n).applied)
+                                               ELSE @[n]],
         !.downView = [n \in NodeIds(r) |-> IF ND(r, n).up THEN ND(r, n).view ELSE @[n]],
         !.acked = @ \cup {cr[j].id : j \in {x \in 1..Len(cr) : cr[x].ok}},
         !.sentAt = [m \in DOMAIN @ \cup {ae[j].mid : j \in 1..Len(ae)} |->
@@ -199,6 +205,7 @@ ApplyOrderBad(evs, j, last, incs) ==   \* evs: Applied events of this record in 
   ELSE LET e == evs[j]
            prev == last[e.n]
            fresh == incs[e.n] # e.inc          \* first apply of a new incarnation: starts after what the SM holds
+           dbl == prev # 0 /\ e.idx <= prev      \* an index applied again (never acceptable)
        IN (IF ~fresh /\ prev # 0 /\ e.idx # prev + 1 THEN {<<e.n, prev, e.idx>>} ELSE {})
           \cup ApplyOrderBad(evs, j + 1, [last EXCEPT ![e.n] = e.idx], [incs EXCEPT ![e.n] = e.inc])
 Mon_C06(hp, hn, rp, r) ==
@@ -207,7 +214,9 @@ Mon_C06(hp, hn, rp, r) ==
       si == Evs(rp, "SnapInstall") \o Evs(r, "SnapInstall")
       last0 == [n \in DOMAIN hp.lastApplied |->
                   IF \E j \in 1..Len(si) : si[j].to = n /\ si[j].ok THEN 0 ELSE hp.lastApplied[n]]
-  IN {V("C06", "ApplyOrder", r, IF ~Contiguous(ND(r, x[1]).log) THEN "gap-in-log" ELSE "other", ToString(x)) :
+  IN {V("C06", "ApplyOrder", r,
+        IF x[3] <= x[2] THEN "index-applied-again" ELSE IF ~Contiguous(ND(r, x[1]).log) THEN "gap-in-log" ELSE "other",
+        ToString(x)) :
          x \in ApplyOrderBad(evs, 1, last0, hp.inc)}
      \cup {V("C06", "ApplyAgreement", r, CascadeCause(hn), ToString(evs[j].idx)) :
              j \in {x \in 1..Len(evs) : evs[x].idx \in DOMAIN hp.appliedCmd /\ hp.appliedCmd[evs[x].idx] # evs[x].c}}
@@ -243,7 +252,7 @@ Mon_C08(hn, rp, r) ==
   LET ae == Evs(r, "AESent")
       ar == Evs(r, "AEResp")
   IN {V("C08", "ContiguousAE", r,
-        IF ae[j].ents[1][1] = ae[j].prev + 1 THEN "legacy-cap-then-new-entries" ELSE "other",
+        IF ae[j].ents[1][1] = ae[j].prev + 1 THEN "legacy-cap-then-new-entries" ELSE CascadeCause(hn),
         ToString(<<ae[j].from, ae[j].to, ae[j].prev>>)) :
         j \in {x \in 1..Len(ae) : \E y \in 1..Len(ae[x].ents) : ae[x].ents[y][1] # ae[x].prev + y}}
      \cup {V("C08", "GapFree", r, IF r.a.a = "DeliverAE" /\ r.a.to = n THEN "gapped-request-appended" ELSE "other", ToString(n)) :
@@ -266,7 +275,7 @@ Mon_C09(hn, rp, r) ==
      IN IF e.i # 0 /\ e.t = ND(r, n).term
            /\ IsMajority(Cardinality({v \in vs : Holds(r, v, e)} \cup lost) + 1, Cardinality(vs) + 1)
         THEN "holder-lost-entry-by-prev0-reset"
-        ELSE IF hn.gapSeen THEN "after-gapped-request" ELSE "other",
+        ELSE CascadeCause(hn),
      ToString(<<n, ND(r, n).commit>>)) :
      n \in {x \in Leaders(r) : ND(rp, x).up /\ ND(rp, x).inc = ND(r, x).inc
               /\ ND(r, x).commit > ND(rp, x).commit /\
@@ -295,6 +304,13 @@ Mon_Client(hp, hn, r) ==
         j \in {x \in writes : cr[x].ok /\ ~\E c \in hn.committed : c.e.k = "cmd" /\ c.e.v = CmdStr(cr[x])}}
      \cup \* C29: exactly one response per request
      {V("C29", "OneResponse", r, "other", ToString(cr[j].id)) : j \in {x \in 1..Len(cr) : cr[x].id \in hp.responded}}
+     \cup \* C29: a CAS response reports the outcome actually applied at its entry
+     {V("C29", "CasOutcomeAsApplied", r, CascadeCause(hn), ToString(cr[j].id)) :
+        j \in {x \in writes : cr[x].kind = "cas" /\ cr[x].err = 0 /\ cr[x].wsucc \in BOOLEAN /\
+                 \E i \in DOMAIN hn.appliedCmd :
+                     /\ hn.appliedCmd[i].op = "cas" /\ hn.appliedCmd[i].key = cr[x].key
+                     /\ hn.appliedCmd[i].val = cr[x].val /\ hn.appliedCmd[i].exp = cr[x].exp
+                     /\ hn.appliedOk[i] # cr[x].wsucc}}
      \cup \* C29: success only after the entry is applied on the responding leader; CAS outcome as applied
      {V("C29", "OkOnlyAfterApply", r, CascadeCause(hn), ToString(cr[j].id)) :
         j \in {x \in writes : cr[x].ok /\
@@ -394,7 +410,14 @@ Mon_C11(hn, r) ==
   IN {V("C11", "LinearizableRead", r,
         IF ND(r, cr[j].node).role = "L" /\ ND(r, cr[j].node).lease
            /\ \E m \in Leaders(r) : ND(r, m).term > ND(r, cr[j].node).term
-        THEN "deposed-leader-with-valid-lease" ELSE CascadeCause(hn),
+        THEN "deposed-leader-with-valid-lease"
+        \* Path B of the leader (handle_apply_completed): a queued read is answered when the state machine reaches
+        \* its read index, in a step in which the node received no acknowledgement, its lease expired, and a
+        \* leader of a higher term exists
+        ELSE IF ND(r, cr[j].node).role = "L" /\ ~ND(r, cr[j].node).lease
+                /\ (\E m \in Leaders(r) : ND(r, m).term > ND(r, cr[j].node).term)
+                /\ ~(r.a.a = "DeliverAR" /\ r.a.to = cr[j].node)
+        THEN "deposed-leader-answers-on-apply-without-confirmation" ELSE CascadeCause(hn),
         ToString(<<cr[j].id, cr[j].key, ReadVal(cr[j])>>)) :
         j \in {x \in 1..Len(cr) : cr[x].kind = "read" /\ cr[x].policy = "lin" /\ cr[x].ok
                  /\ cr[x].id \in DOMAIN hn.readFloor /\
